@@ -17,10 +17,16 @@ fn main() {
         let mut cfg = gen_cfg(&mut rng, kind);
         cfg.max_idle = rng.usize(4);
         let scenes = 2 + rng.usize(3);
+        // a third of the visual cases: an own-area threshold for *using* features, crowded first scene, lone objects elsewhere
+        let leak_prone = kind.is_visual() && rng.chance(0.35);
+        if leak_prone {
+            cfg.vis.own_use = *rng.pick(&[0.3f32, 0.6]);
+            cfg.vis.min_track_len = (1 + rng.usize(2)).min(cfg.vis.max_obs);
+        }
         let w = WorldOpts {
             scenes,
             same_region: rng.chance(0.6),
-            preset: *rng.pick(&["random", "crossing", "convoy", "crowd", "lookalikes", "stop-and-go", "teleport", "teleport"]),
+            preset: if leak_prone { *rng.pick(&["crowd", "convoy", "teleport"]) } else { *rng.pick(&["random", "crossing", "convoy", "crowd", "lookalikes", "stop-and-go", "teleport", "teleport"]) },
             rotated: rng.chance(0.25),
             features: kind.is_visual(),
             feat_dim: 4,
@@ -30,6 +36,7 @@ fn main() {
             low_quality: rng.chance(0.3),
             avoid_coincident: kind.is_visual() && (cfg.vis.own_use + cfg.vis.own_collect > 0.0),
             low_conf: false,
+            vary_nobj: leak_prone || rng.chance(0.3),
         };
         let h = HistOpts { len: if cli.small { 8 } else { 30 + rng.usize(61) }, lifecycle_ops: false, clear_wasted: false, auto_waste_ops: false, batches: kind.is_batch(), empty_calls: true };
         let ops = gen_history(&mut rng, &w, &h);
